@@ -93,7 +93,8 @@ fn avro_longs_input(r: &mut Rng) -> (Vec<u8>, String) {
         let mut data = Vec::new();
         for _ in 0..n { if r.chance(1, 10) { data.extend(rand_varint(r)); } else { data.extend(uleb(zz64(r.next() as i64 >> r.below(64)))) } }
         let mut count = n as i64; let mut size = data.len() as i64;
-        match r.below(14) { 0 => { count += 1; tag += "cnt+ " } 1 => { count -= 1; tag += "cnt- " } 2 => { count = 0; tag += "cnt0 " } 3 => { size += 1; tag += "sz+ " } 4 => { size -= 1; tag += "sz- " } 5 => { count = -count - 1; tag += "cntneg " } 6 => { size = -1; tag += "szneg " } _ => {} }
+        // the mutations that park the reader in its no-progress loop (model: RHang) cost a watchdog period each: keep them rare
+        match r.below(70) { 0..=4 => { count += 1; tag += "cnt+ " } 5 => { count -= 1; tag += "cnt- " } 6 => { count = 0; tag += "cnt0 " } 7 => { size += 1; tag += "sz+ " } 8..=12 => { size -= 1; tag += "sz- " } 13..=17 => { count = -count - 1; tag += "cntneg " } 18..=22 => { size = -1; tag += "szneg " } _ => {} }
         if r.chance(1, 14) { o.extend(rand_varint(r)); tag += "cntraw " } else { o.extend(uleb(zz64(count))) }
         if r.chance(1, 14) { o.extend(rand_varint(r)); tag += "szraw " } else { o.extend(uleb(zz64(size))) }
         o.extend(&data);
@@ -147,7 +148,7 @@ fn gen_probes(tier: &str, r: &mut Rng, emit: &mut dyn FnMut(Case)) {
     for _ in 0..600 * scale { let (b, t) = avro_longs_input(r); jobs.push(("c08.avro_longs".into(), vec![gbytes(&b)])); meta.push(("c08.avro_longs", "c08.avro_longs.post", t)); }
     for _ in 0..600 * scale { let (a, t) = ipc_batch_input(r); jobs.push(("c08.ipc_batch".into(), a)); meta.push(("c08.ipc_batch", "c08.ipc_batch.post", t)); }
     let t0 = std::time::Instant::now();
-    let outs = run_batch(jobs.clone());
+    let outs = run_batch_wd(jobs.clone(), 1500, 15000);   // probes are tiny: milliseconds when they terminate
     eprintln!("c08: {} probes executed in {:.1}s", outs.len(), t0.elapsed().as_secs_f64());
     for (k, (_, a)) in jobs.into_iter().enumerate() {
         let (op, model, t) = &meta[k];
